@@ -85,8 +85,8 @@ class Sim:
     # ---- pieces
     def shift_into(self, dst, a, extra=0):
         off = self.off1(dst, a)
-        dst.d, dst.b = a.d, a.b
-        dst.b = self.budget_sub(a.b, off + extra)
+        lb = self.budget_sub(a.b, off + extra)
+        dst.d, dst.b = a.d, lb
 
     def pt_align(self, dst, pd, pb, pq):
         if self.q != pq:
@@ -638,9 +638,9 @@ def parse_header(line):
 
 
 def oracle(line, impl_steps):
-    """Property oracle: judges the implementation's own outputs against the statement, along the
-    run that a caller propagating errors with `?` performs: up to and including the first call that
-    does not return Ok.  Returns a list with at most one (step index, key, description)."""
+    """Property oracle: judges the implementation's own outputs against the statement along the whole
+    run of a caller that handles errors and goes on (an Err leaves consistent state, docs/fixes/08).
+    Returns a list with at most one (step index, key, description)."""
     kv, keys, pool, ops = parse_header(line)
     q = int(kv["base2k"])
     sim = Sim(q, keys, int(kv.get("maxprec", 53)), pool)
@@ -654,19 +654,17 @@ def oracle(line, impl_steps):
         if got.startswith("panic") or got.startswith("harness-panic"):
             k = key if want.startswith("panic") else None
             return [(i, k, f"step {i} `{op}` panics ({got}); the statement allows only ok/err")]
-        if got.startswith("ok@"):
-            cur = got[3:].split("/")
+        if got.startswith("ok@") or got.startswith("err:"):
+            cur = got.split("@")[-1].split("/")
             for j, e in enumerate(cur):
                 d, b, s = (int(x) for x in e.split("."))
                 if d + b > s * q and (prev is None or j >= len(prev) or prev[j] != e):
                     k = None
-                    return [(i, k, f"step {i} `{op}` returns ok with log_delta+log_budget={d + b} > max_k={s * q} on slot {j}")]
+                    return [(i, k, f"step {i} `{op}` returns {got.split('@')[0].split(':')[0]} leaving log_delta+log_budget={d + b} > max_k={s * q} on slot {j}")]
             prev = cur
         if got.split("@")[0] != want.split("@")[0]:
             # ok / err / error fields differ from the documented conditions (the mirror encodes them)
             return [(i, None, f"step {i} `{op}`: implementation {got.split('@')[0]}, documented behaviour {want.split('@')[0]}")]
-        if got.startswith("err"):
-            break          # the caller stops here
         if got != want:
             return [(i, None, f"step {i} `{op}`: implementation state {got}, documented {want}")]
     return []
@@ -966,8 +964,6 @@ def run(ctx):
             for s, dgs in enumerate(dg):
                 if first_finding is not None and s >= first_finding:
                     break
-                if s < len(i) and i[s].startswith("err"):
-                    break      # the judged run ends at the first Err (as in `oracle`)
                 if dgs and dgs != "-":
                     try:
                         l2e, ld, l2m, lb = dgs.split(":")
